@@ -205,11 +205,15 @@ func init() {
 			"the clock is fixed (2021-03-10 14:07) for commands without --time; the per-minute behaviour of the clock is C17's subject",
 			"new-record position: exact for ascending-sorted files, any position that keeps the old records' order otherwise; --resume from the previous record is a don't-care when several records share the latest earlier date",
 		},
-		Units: func(t fw.Tier) int { return len(c04Init)*len(c04Ops()) + c04PauseUnits(t) + 1 },
+		Units: func(t fw.Tier) int { return len(c04Init)*len(c04Ops()) + c04PauseUnits(t) + 2 },
 		RunUnit: func(c *fw.Ctx, unit int) {
 			ops := c04Ops()
 			if unit == len(c04Init)*len(ops)+c04PauseUnits(c.Tier) {
 				c04Spellings(c, -1)
+				return
+			}
+			if unit == len(c04Init)*len(ops)+c04PauseUnits(c.Tier)+1 {
+				c04Ends(c)
 				return
 			}
 			if unit >= len(c04Init)*len(ops) {
@@ -239,7 +243,7 @@ func init() {
 			x.dir = filepath.Join(fw.Scratch(), "c04")
 			os.MkdirAll(x.dir, 0755)
 			x.home = clidrv.Home("home")
-			state := c04Init[cs.Init]
+			state := c04InitText(cs.Init)
 			for i := range cs.History {
 				var ok bool
 				state, ok = x.step(state, cs.History[:i+1], cs.ViaCLI || i == 0)
@@ -323,7 +327,7 @@ func (x *c04Explorer) step(before string, hist []Op, viaCLI bool) (string, bool)
 		for _, h := range hist {
 			s = append(s, "klog "+h.String())
 		}
-		return fmt.Sprintf("initial file %q; history: %s", c04Init[x.init], strings.Join(s, " ; "))
+		return fmt.Sprintf("initial file %q; history: %s", c04InitText(x.init), strings.Join(s, " ; "))
 	}
 	if r.Panicked {
 		c.Violation("panic:"+o.Kind+":"+fw.PanicSite(r.Stack), cs(), fmt.Sprintf("`klog %s` panicked on %q: %v\n%s\n%s", o.String(), before, r.PanicVal, r.Stack, hs()))
@@ -403,6 +407,59 @@ func c04PauseUnit(c *fw.Ctx, unit int) {
 		x.step(c04Init[x.init], []Op{o}, i%64 == 0)
 		if c.ViolationCount() > 0 || c.Expired() {
 			return
+		}
+	}
+}
+
+
+// ---- the two ends of the representable calendar as explicit target dates
+
+var c04EndsInit = []string{
+	"0000-01-01\n    1:00 - ?\n",
+	"0000-01-01\n    1h\n\n0000-01-02\n    8:00 - ? x\n",
+	"9999-12-31\n    1:00 - ?\n",
+	"9999-12-30\n    8:00 - ?\n\n9999-12-31\n    1h\n",
+	"2021-03-10\n    1h\n",
+}
+
+func c04InitText(i int) string {
+	if i < 0 {
+		return c04EndsInit[-1-i]
+	}
+	return c04Init[i]
+}
+
+// c04Ends: every command with an explicit --date at (or next to) the first / last representable date, on files
+// whose records lie there; the clock stays at its ordinary reading. The model decides as everywhere else.
+func c04Ends(c *fw.Ctx) {
+	var ops []Op
+	for _, d := range []string{"0000-01-01", "0000-01-02", "9999-12-30", "9999-12-31"} {
+		ops = append(ops,
+			Op{Kind: "stop", Date: d, Time: "2:00"},
+			Op{Kind: "stop", Date: d, Time: "9:00", HasSum: true, Summary: "done"},
+			Op{Kind: "start", Date: d, Time: "3:00"},
+			Op{Kind: "switch", Date: d, Time: "10:00"},
+			Op{Kind: "track", Date: d, Entry: "45m at the edge"},
+			Op{Kind: "track", Date: d, Entry: "<23:00 - 0:30>"},
+			Op{Kind: "create", Date: d},
+			Op{Kind: "create", Date: d, Should: "8h"},
+		)
+	}
+	for k, init := range c04EndsInit {
+		x := &c04Explorer{c: c, init: -1 - k, visited: map[uint64]bool{}}
+		x.dir = filepath.Join(fw.Scratch(), "c04e")
+		os.MkdirAll(x.dir, 0755)
+		x.home = clidrv.Home("home")
+		for _, o := range ops {
+			after, ok := x.step(init, []Op{o}, true)
+			if ok {
+				for _, o2 := range ops {
+					x.step(after, []Op{o, o2}, false)
+				}
+			}
+			if c.ViolationCount() > 3 {
+				return
+			}
 		}
 	}
 }
